@@ -1119,6 +1119,12 @@ class C31(WorldCheck):
         kind = op['op']
         memoryless = all(s['nl'] in ('runonce', 'nlbj', 'newton') or (s['nl'] == 'nlbgs' and not s.get('aitken'))
                          for s in sim.world['solvers'].values())
+        if memoryless and any(s['nl'] == 'newton' for s in sim.world['solvers'].values()) and \
+                any(s['ln'].split('_')[0] in ('lnbgs', 'lnbj', 'krylov') for s in sim.world['solvers'].values()):
+            # Newton does not zero d_outputs before its linear solve, and an iterative linear solver starts from
+            # what it finds there (e.g. the random direction a directional check_totals left behind): the Newton
+            # steps, hence the converged state, agree to solver tolerance only
+            memoryless = False
         if kind in ('check_partials', 'check_totals') and op.get('method') == 'cs' and not sim.knobs.get('complex'):
             op = dict(op, method='fd')
         if kind == 'rerun_restored':
